@@ -130,49 +130,147 @@ def _re_match_patterns(node):
 SEP_SHAPE = re.compile(r"\(\(\?:\[\^<\\w(?P<x1>[^\]]*)\]\*\(\?:<\[\^>\]\+>\)\?\)\*\)\(\[\\w(?P<x2>[^\]]*)\]\+\)\?\(\.\*\)")
 
 
-def _sep(cls, what):
-    a = _assigns(cls)
-    if "sepWordREC" not in a:
-        _err("%s.sepWordREC not found" % what)
-    r = _re_compile_args(a["sepWordREC"])
-    if r is None:
-        _err("%s.sepWordREC is not re.compile(<literal>)" % what)
-    pat, flag = r
+class _Mod:
+    """one source file: every assignment (`name = value`, `self.name = value`, class attribute) wherever it is written
+    — module level, class body, function body —, every regex (re.compile(<literal>), re.match/search(<literal>, …),
+    <name>.match/search(…) resolved through the assignments), every dict / list / tuple / set display of strings.
+    Constants are then recognised by CONTENT and SHAPE, never by their name or position."""
+
+    def __init__(self, fname):
+        self.tree, self.path = _src(fname)
+        self.fname = fname
+        self.assigns = {}
+        for n in ast.walk(self.tree):
+            if isinstance(n, ast.Assign) and len(n.targets) == 1:
+                t = n.targets[0]
+                name = t.id if isinstance(t, ast.Name) else (t.attr if isinstance(t, ast.Attribute) else None)
+                if name:
+                    self.assigns.setdefault(name, n.value)
+            elif isinstance(n, ast.AnnAssign) and n.value is not None and isinstance(n.target, ast.Name):
+                self.assigns.setdefault(n.target.id, n.value)
+
+    def resolve(self, node, depth=0):
+        """the value a Name / Attribute refers to (through simple aliases), else the node itself"""
+        while depth < 5:
+            name = node.id if isinstance(node, ast.Name) else (node.attr if isinstance(node, ast.Attribute) else None)
+            if name is None or name not in self.assigns:
+                return node
+            node = self.assigns[name]
+            depth += 1
+        return node
+
+    def compiled(self):
+        """[(pattern, re.I?)] of every re.compile(<literal>[, re.I]) of the file"""
+        out = []
+        for n in ast.walk(self.tree):
+            r = _re_compile_args(n)
+            if r is not None:
+                out.append(r)
+        return out
+
+    def regex_of_call(self, n):
+        """(pattern, re.I?) tested by a call: re.match/search/fullmatch(<literal>, x[, re.I]) or R.match/search(x)
+        where R resolves to re.compile(<literal>…); else None"""
+        if not (isinstance(n, ast.Call) and isinstance(n.func, ast.Attribute) and n.func.attr in ("match", "search", "fullmatch")):
+            return None
+        base = n.func.value
+        if isinstance(base, ast.Name) and base.id == "re":
+            if n.args and isinstance(self.resolve(n.args[0]), ast.Constant) and isinstance(self.resolve(n.args[0]).value, str):
+                flag = len(n.args) > 2 and isinstance(n.args[2], ast.Attribute) and n.args[2].attr in ("I", "IGNORECASE")
+                return self.resolve(n.args[0]).value, flag
+            return None
+        return _re_compile_args(self.resolve(base))
+
+    def tested(self, node=None):
+        """[(pattern, re.I?)] of every regex test inside `node` (default: the file), in source order"""
+        out = []
+        for n in ast.walk(node if node is not None else self.tree):
+            r = self.regex_of_call(n)
+            if r is not None:
+                out.append((n.lineno, n.col_offset, r))
+        out.sort()
+        return [r for _, _, r in out]
+
+    def all_regexes(self):
+        seen, out = set(), []
+        for r in self.compiled() + self.tested():
+            if r not in seen:
+                seen.add(r)
+                out.append(r)
+        return out
+
+    def dicts(self):
+        """every dict display whose keys and values are all str literals, as a list of pairs"""
+        out = []
+        for n in ast.walk(self.tree):
+            if isinstance(n, ast.Dict) and n.keys and all(
+                    isinstance(k, ast.Constant) and isinstance(k.value, str) and isinstance(v, ast.Constant)
+                    and isinstance(v.value, str) for k, v in zip(n.keys, n.values)):
+                out.append([(k.value, v.value) for k, v in zip(n.keys, n.values)])
+        return out
+
+    def str_seq(self, node):
+        """the strings of a list / tuple / set display (possibly behind a name, frozenset(…), tuple(…)), else None"""
+        node = self.resolve(node)
+        if isinstance(node, ast.Call) and isinstance(node.func, ast.Name) and node.func.id in ("frozenset", "set", "tuple", "list") and node.args:
+            node = self.resolve(node.args[0])
+        if isinstance(node, (ast.List, ast.Tuple, ast.Set)) and node.elts and all(
+                isinstance(e, ast.Constant) and isinstance(e.value, str) for e in node.elts):
+            return [e.value for e in node.elts]
+        return None
+
+
+def _one(cands, what, fname):
+    cands = [c for i, c in enumerate(cands) if c not in cands[:i]]
+    if len(cands) != 1:
+        _err("%s: %s %s (recognised by content/shape)" % (fname, what, "not found" if not cands else "is ambiguous: %r" % (cands[:3],)))
+    return cands[0]
+
+
+def _sep(mod):
+    c = [(p, fl) for p, fl in mod.compiled() if SEP_SHAPE.fullmatch(p)]
+    if not c:
+        _err("%s: no regex of the shape of sepWordREC (`((?:[^<\\w…]*(?:<[^>]+>)?)*)([\\w…]+)?(.*)`) — it changed shape"
+             % mod.fname)
+    pat, flag = _one(c, "sepWordREC", mod.fname)
     m = SEP_SHAPE.fullmatch(pat)
-    if not m or m.group("x1") != m.group("x2"):
-        _err("%s.sepWordREC changed shape: %r" % (what, pat))
+    if m.group("x1") != m.group("x2"):
+        _err("%s: sepWordREC changed shape: %r" % (mod.fname, pat))
     return pat, m.group("x1"), flag
 
 
-def extract():
-    fr_tree, _ = _src("ConstituentFr.py")
-    en_tree, _ = _src("ConstituentEn.py")
-    fr = _find_class(fr_tree, "ConstituentFr")
-    en = _find_class(en_tree, "ConstituentEn")
-    d = {}
-    d["sepFrPattern"], d["sepFrExtra"], d["sepFrI"] = _sep(fr, "ConstituentFr")
-    d["sepEnPattern"], d["sepEnExtra"], d["sepEnI"] = _sep(en, "ConstituentEn")
-    # ---- French
-    f = _find_func(fr, "doElision")
-    a = _assigns(f)
-    for name in ("elidableWordFrRE", "euphonieFrRE", "euphonieFrTable", "contractionFrTable"):
-        if name not in a:
-            _err("ConstituentFr.doElision: %s not found" % name)
-    p, fl = _re_compile_args(a["elidableWordFrRE"]) or _err("elidableWordFrRE is not re.compile(<literal>)")
-    if not fl:
-        _err("elidableWordFrRE lost re.I")
-    d["elidableFr"] = _alts(p, "elidableWordFrRE", True)
-    p, fl = _re_compile_args(a["euphonieFrRE"]) or _err("euphonieFrRE is not re.compile(<literal>)")
-    if not fl:
-        _err("euphonieFrRE lost re.I")
-    d["euphonicFr"] = _alts(p, "euphonieFrRE", True)
-    d["euphonieFrTable"] = _dict(a["euphonieFrTable"], "euphonieFrTable")
-    d["contractionFrTable"] = _dict(a["contractionFrTable"], "contractionFrTable")
-    pats = _re_match_patterns(f)
-    want = {"vowel": None, "h": None, "w3": None, "ce": None, "ceverb": None}
-    for p, fl in pats:
-        m = re.fullmatch(r"\^\[([^\]\\^-]+)\]", p)
+def _anchored_alts(mod, must, end_anchor, what):
+    """the regex `^(a|b|…)` (+ `$` when end_anchor), re.I, one alternative of which is `must`"""
+    c = []
+    for p, fl in mod.all_regexes():
+        m = re.fullmatch(r"\^\((.*)\)" + (r"\$" if end_anchor else ""), p)
         if m and fl:
+            try:
+                alts = _alts(p, what, end_anchor)
+            except Exception:  # noqa: another regex of a different syntax
+                continue
+            if must in alts:
+                c.append(tuple(alts))
+    return list(_one(c, what, mod.fname))
+
+
+def extract():
+    fr = _Mod("ConstituentFr.py")
+    en = _Mod("ConstituentEn.py")
+    d = {}
+    d["sepFrPattern"], d["sepFrExtra"], d["sepFrI"] = _sep(fr)
+    d["sepEnPattern"], d["sepEnExtra"], d["sepEnI"] = _sep(en)
+    # ---- French (each constant is recognised by what it contains, wherever and under whatever name it is defined)
+    d["elidableFr"] = _anchored_alts(fr, "le", True, "the regex of the elidable words (elidableWordFrRE)")
+    d["euphonicFr"] = _anchored_alts(fr, "beau", True, "the regex of the euphonic words (euphonieFrRE)")
+    d["euphonieFrTable"] = _one([t for t in fr.dicts() if dict(t).get("beau") and "+" not in "".join(k for k, _ in t)],
+                                "the euphony table (euphonieFrTable)", fr.fname)
+    d["contractionFrTable"] = _one([t for t in fr.dicts() if all("+" in k for k, _ in t)],
+                                   "the contraction table (contractionFrTable)", fr.fname)
+    want = {"vowel": None, "h": None, "w3": None, "ce": None, "ceverb": None}
+    for p, fl in fr.all_regexes():
+        m = re.fullmatch(r"\^\[([^\]\\^-]+)\]", p)
+        if m and fl and "a" in m.group(1) and "e" in m.group(1):
             want["vowel"] = m.group(1)
         elif p == "^h" and fl:
             want["h"] = "h"
@@ -187,40 +285,46 @@ def extract():
             want["ceverb"] = alts
     for k, v in want.items():
         if v is None:
-            _err("ConstituentFr.doElision: the %s test was not found (regex changed)" % k)
+            _err("ConstituentFr.py: the %s test was not found (regex changed)" % k)
     d["vowelsFr"] = want["vowel"]
     d["ceVerbFr"] = want["ceverb"]
-    exc = None
-    for n in ast.walk(f):
-        if isinstance(n, ast.Compare) and len(n.ops) == 1 and isinstance(n.ops[0], ast.NotIn) and isinstance(n.comparators[0], ast.List):
-            vals = [e.value for e in n.comparators[0].elts if isinstance(e, ast.Constant)]
-            if vals and all(isinstance(v, str) for v in vals) and isinstance(n.left, ast.Name) and n.left.id == "w2":
-                exc = vals
-    if exc is None:
-        _err("ConstituentFr.doElision: euphony exception list (w2 not in [...]) not found")
-    d["euphExceptionsFr"] = exc
+    exc = []
+    for n in ast.walk(fr.tree):
+        if isinstance(n, ast.Compare) and len(n.ops) == 1 and isinstance(n.ops[0], (ast.NotIn, ast.In)):
+            vals = fr.str_seq(n.comparators[0])
+            if vals and "et" in vals and "ou" in vals:
+                exc.append(tuple(vals))
+    d["euphExceptionsFr"] = list(_one(exc, "the euphony exception list (w2 not in [\"et\", \"ou\", …])", fr.fname))
     # ---- English
-    f = _find_func(en, "doElision")
-    a = _assigns(f)
-    for name in ("hAnRE", "uLikeYouRE", "acronymRE", "contractionEnTable"):
-        if name not in a:
-            _err("ConstituentEn.doElision: %s not found" % name)
-    p, fl = _re_compile_args(a["hAnRE"]) or _err("hAnRE")
-    if not fl:
-        _err("hAnRE lost re.I")
-    d["hAnEn"] = _alts(p, "hAnRE", False)
-    p, fl = _re_compile_args(a["uLikeYouRE"]) or _err("uLikeYouRE")
-    if not fl:
-        _err("uLikeYouRE lost re.I")
-    d["uLikeYouEn"] = _alts(p, "uLikeYouRE", False)
-    p, fl = _re_compile_args(a["acronymRE"]) or _err("acronymRE")
-    if p != "^[A-Z]+$" or fl:
-        _err("acronymRE changed: %r" % p)
-    d["contractionEnTable"] = _dict(a["contractionEnTable"], "contractionEnTable")
-    pats = _re_match_patterns(f)
+    d["hAnEn"] = _anchored_alts(en, "heir", False, "the silent-h regex (hAnRE)")
+    d["uLikeYouEn"] = _anchored_alts(en, "uni", False, "the u-like-you regex (uLikeYouRE)")
+    if not any(p == "^[A-Z]+$" and not fl for p, fl in en.all_regexes()):
+        _err("ConstituentEn.py: the acronym regex ^[A-Z]+$ (acronymRE) was not found")
+    d["contractionEnTable"] = _one([t for t in en.dicts() if all("+" in k for k, _ in t)],
+                                   "the contraction table (contractionEnTable)", en.fname)
+    # the a/an condition: the `if … or (…)` whose test contains the nine regex tests
+    special = {"hAn", "uLike", "acr"}
+
+    def classify(p, fl):
+        if p == "^[A-Z]+$":
+            return "acr"
+        try:
+            alts = _alts(p, "", False)
+        except Exception:  # noqa
+            return None
+        return "hAn" if "heir" in alts else ("uLike" if "uni" in alts else None)
+    cond = None
+    for n in ast.walk(en.tree):
+        if isinstance(n, ast.If) and isinstance(n.test, ast.BoolOp) and isinstance(n.test.op, ast.Or):
+            t = en.tested(n.test)
+            if len([1 for p, fl in t if classify(p, fl) not in special]) == 6 and len(t) >= 6:
+                cond = n.test
+    if cond is None:
+        _err("ConstituentEn.py: the a/an condition (six inline regex tests + hAn/uLikeYou/acronym) was not found")
+    pats = [(p, fl) for p, fl in en.tested(cond) if classify(p, fl) not in special]
     shape = [p for p, fl in pats]
-    if len(shape) != 6 or not all(fl for _, fl in pats):
-        _err("ConstituentEn.doElision: the a/an condition no longer has its six re.match tests: %r" % (shape,))
+    if not all(fl for _, fl in pats):
+        _err("a/an: one of the six tests lost re.I: %r" % (shape,))
     m = re.fullmatch(r"\^\[([a-z]+)\]", shape[0])
     if not m:
         _err("a/an: first test is not ^[..]: %r" % shape[0])
@@ -230,17 +334,11 @@ def extract():
             _err("a/an: expected %s, found %r" % (want_, shape[k]))
     d["notEEn"] = _expand(shape[2][1:], "a/an ^eu") if shape[2].startswith("^") else _err("a/an ^eu")
     d["notOEn"] = _expand(shape[4][1:], "a/an ^onc?e") if shape[4].startswith("^") else _err("a/an ^onc?e")
-    lits = [n.value for n in ast.walk(f) if isinstance(n, ast.Constant) and isinstance(n.value, str)]
+    lits = [n.value for n in ast.walk(en.tree) if isinstance(n, ast.Constant) and isinstance(n.value, str)]
     for lit in ("a", "A", "cannot", "can't", "n", "+", "D"):
         if lit not in lits:
-            _err("ConstituentEn.doElision: literal %r not found" % lit)
+            _err("ConstituentEn.py: literal %r not found" % lit)
     # the boolean structure of the condition:  A or (B and not C or D and not E or F and not G or H or I)
-    cond = None
-    for n in ast.walk(f):
-        if isinstance(n, ast.If) and isinstance(n.test, ast.BoolOp) and isinstance(n.test.op, ast.Or) and len(_re_match_patterns(n.test)) == 6:
-            cond = n.test
-    if cond is None:
-        _err("a/an: the `or` condition was not found")
     inner = cond.values[1] if len(cond.values) == 2 else None
     ok = (inner is not None and isinstance(inner, ast.BoolOp) and isinstance(inner.op, ast.Or) and len(inner.values) == 5
           and all(isinstance(v, ast.BoolOp) and isinstance(v.op, ast.And) and len(v.values) == 2
